@@ -199,6 +199,14 @@ def run(ctx, replay=None):
     traces.append(hand_trace('crash-in-commit-later', kvchain, (2,), crashes={2: 3, 3: 4}))
     traces.append(hand_trace('crash-in-commit-twice', kvchain, (), crashes={1: 3, 3: 3}))
 
+    # 9. a flood of bad signatures (>= number of signature-checking goroutines, then further transactions): replicas with
+    #    1, 2, 8 goroutines and the package default must all execute the block, with the same result
+    for rt, nbad in ((1, 2), (2, 3), (8, 9), (-1, 17)):
+        t = hand_trace('badsig-flood-%s' % ('default' if rt < 0 else rt),
+                       [[atx('badsig', 0, 0)] * nbad + [atx('xfer', 1, 0), atx('kv', 2, 0, 'k1', 'a')], [atx('xfer', 1, 1)]], ())
+        t['cfg']['routines'] = rt
+        traces.append(t)
+
     # binding self-test
     probe = None
     for t in traces:
